@@ -98,9 +98,17 @@ CLAIMS['C08'] = dict(
           "the bytes of schemaOf(type description), so declarations, definitions, field/variant names, tag values "
           "and widths are all compared (BorshSchemaContainer, Definition and Fields themselves included); oracles: no "
           "missing definition, container round-trips, and a reader that knows only the schema parses every real "
-          "encoding of every schema-catalogue type exactly to its end. Partial: the general closedness/describes "
-          "theorems (induction over the universe) are not proved yet."),
-    technique="Lean 4 model of schema generation with kernel-checked lemmas + byte-exact differential check of containers",
+          "encoding of every schema-catalogue type exactly to its end; the same walk is done by the specification's "
+          "reader sdec in the Lean driver (sdec lines), so the oracle and the theorem speak of one reader. Proved by "
+          "induction over the universe: C08_describes_of_bound (if every declaration the type refers to is bound as "
+          "the impls/derive intend - Bnd - then sdec parses the encoding of EVERY value exactly: built-ins, derived "
+          "structs/enums with skips and discriminants, IpAddr), C08_builtin_bound (for_type binds everything as "
+          "intended for every composition of built-in impls: add_definition as a sorted-map insertion, monotone), "
+          "C08_builtin_describes (end to end). Partial: for derived types Bnd is not derived from schemaOf - exactly "
+          "there the proof obligation fails (the derive skips the fields of a declaration already present): known "
+          "finding F8 with witness theorem C08_F8_same_name_witness; derived items are tied by the differential run "
+          "and the schema-only reader oracle."),
+    technique="Lean 4 proof (schema-only reader parses every encoding exactly, induction over the universe; map-insertion spec of add_definition) + byte-exact differential check of containers + schema-only reader oracle",
     design_ref="§5 C08")
 CLAIMS['C09'] = dict(
     text=("Kernel-checked theorems: C09_exact_when_ok (for EVERY container - cycles, dangling names, hostile widths - "
